@@ -15,8 +15,8 @@
    finishes (deadlock rule: all waiters released at zero).  */
 #include "sc.h"
 
-#define MAXOPS 10
-#define MAXLOG 48
+#define MAXOPS 24
+#define MAXLOG 64
 enum { K_INC, K_DEC, K_VALUE, K_ADD0, K_WAIT_T, K_WAIT_U, K_WAITN_U };
 static const char *const kname[] = { "add(+1)", "add(-1)", "value", "add(0)", "wait(timed)", "wait", "wait_n" };
 struct ev { int kind, phase; uint32_t res; uint64_t call, ret; int64_t dl_ns, at_ns; unsigned sleeps; };
